@@ -39,6 +39,16 @@ CONSTANTS
     SnapshotOnPush,  \* BOOLEAN: see above
     WithLazy,        \* BOOLEAN: async-fn spans (begin at first poll)
     WithCurrent,     \* BOOLEAN: Frame::current(rt.ctxt()) hand-off frames
+    FrameKinds,      \* other frames a program may make - subset of
+                     \*   "spanctxt": SpanCtxt::current(ctxt).push(ctxt), the other way to carry the span
+                     \*               context elsewhere (the pushed span id equals the active one)
+                     \*   "state"   : Tracestate::push - a new tracestate rides along with whatever
+                     \*               traceparent is current; the trace context is untouched
+                     \*   "root"    : Frame::root(ctxt, user props) - shows only its own properties, so it
+                     \*               carries no trace (TraceparentCtxt::open_root)
+    Sampler,         \* BOOLEAN: TRUE = the filter has a sampler (setup_with_sampler, new_with_sampler);
+                     \* FALSE = it has none (emit_traceparent::setup(), TraceparentFilter::new()): every
+                     \* new trace is sampled and there is nothing to consult
     CtxForms,        \* forms in which the runtime's context is used (see FormOpen below)
     Panics,          \* BOOLEAN: real panics in span bodies / polls, caught below everything entered
     Emit
@@ -66,7 +76,15 @@ IsValid(x) == x.some /\ x.tr # 0 /\ x.sp # 0          \* Traceparent::is_valid
 (* EMPTY), not open_push(props) nor the trait default open_push(Empty).     *)
 (* Every program is replayed through the forms in rotation.                 *)
 (***************************************************************************)
-AllCtxForms == {"value", "ref", "option", "box", "arc", "dyn", "ambient"}
+AllCtxForms == {"value", "ref", "option", "box", "arc", "dyn", "ambient",
+                \* without a sampler: emit_traceparent::setup()..init_slot(..), and
+                \* Runtime::build(.., TraceparentFilter::new(), TraceparentCtxt::new(..), ..)
+                "setup", "nosampler",
+                \* TraceparentCtxt over a third-party stacking context written on the public trait with
+                \* the default open_push / open_disabled (shadowed duplicates stay visible, first wins)
+                "stack"}
+ASSUME \A form \in CtxForms : (form \in {"setup", "nosampler"}) = ~Sampler
+ASSUME FrameKinds \subseteq {"spanctxt", "state", "root"}
 FormOpen(form, kind) == kind
 ASSUME CtxForms \subseteq AllCtxForms /\ CtxForms # {}
 ASSUME \A form \in CtxForms, kind \in {"push", "root", "disabled"} : FormOpen(form, kind) = kind
@@ -149,7 +167,7 @@ BeginB(t, i, d) ==
     LET cur == CurIds(t)
         ctr == IF cur[1] # 0 THEN cur[1] ELSE DrawTrace(i)      \* new_child
         cid == DrawSpan(i)
-        flt == Incoming(t, ctr, cid, 1, TRUE, d)                  \* TraceparentFilter::matches
+        flt == Incoming(t, ctr, cid, 1, Sampler, d)               \* TraceparentFilter::matches
         tpf == IF flt.slot.some THEN flt.slot.fl = 1 ELSE TRUE
         isf == IF tp[t].some THEN tp[t].fl = 1 ELSE TRUE           \* InSampledTraceFilter(true)
         en  == tpf /\ (InSampled => isf)
@@ -223,6 +241,7 @@ Begin(t, d) ==
     /\ FreeSpans # {} /\ FreeFrames # {}
     /\ Len(stk[t]) < MaxDepth
     /\ d \/ LCtx(t).k = "none"
+    /\ d \/ Sampler
     /\ LET i == NextSpan
            f == NextFrame
            nf == SpanFrame(t, i, d)
@@ -239,6 +258,7 @@ Begin(t, d) ==
 New(t, d) ==
     /\ FreeSpans # {} /\ FreeFrames # {}
     /\ d \/ LCtx(t).k = "none"
+    /\ d \/ Sampler
     /\ LET i == NextSpan
            f == NextFrame
        IN /\ sp' = [sp EXCEPT ![i] = SpanRec(t, i, d)]
@@ -309,6 +329,7 @@ PollLazy(t, k, d) ==
     /\ FreeSpans # {} /\ FreeFrames # {}
     /\ Len(stk[t]) < MaxDepth
     /\ d \/ LCtx(t).k = "none"
+    /\ d \/ Sampler
     /\ LET i == NextSpan
            f == NextFrame
            nf == SpanFrame(t, i, d)
@@ -433,7 +454,32 @@ Current(t) ==
     /\ UNCHANGED <<tp, stk, tk, lazy, sp, slog>>
     /\ Log([op |-> "current", t |-> t, f |-> NextFrame], <<>>)
 
+\* The other frames (FrameKinds).  Level A: a root frame carries nothing; the others carry the
+\* context they were made in, like Frame::current.  Level B: open_root makes a slot only from
+\* props with a span id (user props have none) and is otherwise INACTIVE (enter / exit leave the
+\* thread's traceparent alone); Tracestate::push stores the active traceparent (or an empty, sampled one)
+\* with the new state; SpanCtxt::current().push() goes through open_push with the ids that are
+\* ambient (none unless sampled) - the same span id as the active one makes no slot.
+CarryFrame(t, kind) ==
+    CASE kind = "root" -> [st |-> "idle", slot |-> None, active |-> FALSE, i |-> 0, a |-> NoCtx]
+      \* (Traceparent::empty(): no ids, flag SAMPLED - so that filters reading the flag let a new trace start)
+      [] kind = "state" -> [st |-> "idle", slot |-> IF tp[t].some THEN tp[t] ELSE Tp(0, 0, 1, 0),
+                            active |-> TRUE, i |-> 0, a |-> LCtx(t)]
+      [] OTHER -> LET cur == CurIds(t)
+                      opn == Incoming(t, cur[1], cur[2], 1, FALSE, FALSE)
+                  IN [st |-> "idle",
+                      slot |-> IF opn.slot.some THEN opn.slot ELSE IF SnapshotOnPush THEN tp[t] ELSE None,
+                      active |-> opn.slot.some \/ SnapshotOnPush, i |-> 0, a |-> LCtx(t)]
+
+Carry(t, kind) ==
+    /\ FreeFrames # {}
+    /\ fr' = [fr EXCEPT ![NextFrame] = CarryFrame(t, kind)]
+    /\ em' = <<>>
+    /\ UNCHANGED <<tp, stk, tk, lazy, sp, slog>>
+    /\ Log([op |-> "carry", t |-> t, f |-> NextFrame, kind |-> kind], <<>>)
+
 Next ==
+    \/ \E t \in Threads, kind \in FrameKinds : Carry(t, kind)
     \/ \E t \in Threads, d \in BOOLEAN : Begin(t, d)
     \/ \E t \in Threads, d \in BOOLEAN : New(t, d)
     \/ \E t \in Threads, f \in Frames : Enter(t, f)
@@ -460,7 +506,7 @@ Count(i) == Cardinality({n \in 1..Len(slog) : slog[n] = i})
 \* the sampler ran exactly once for every trace started here, at its root span, and never
 \* for a child span or a span of a trace continued from a valid header
 SamplerOncePerTrace ==
-    /\ \A i \in Started : Count(i) = IF sp[i].root THEN 1 ELSE 0
+    /\ \A i \in Started : Count(i) = IF sp[i].root /\ Sampler THEN 1 ELSE 0
     /\ \A n \in 1..Len(slog) : slog[n] \in Started
 
 \* a span is enabled exactly when its trace is sampled: the decision (or the header's flag) governs
@@ -492,7 +538,9 @@ NoTraceNoParent == \A t \in Threads : LCtx(t).k = "none" => ~IsValid(tp[t])
 
 \* a frame that is not entered carries its own context (moving / re-entering is safe)
 FrameCarries ==
-    \A f \in Frames : fr[f].st \in {"idle", "task"} => (fr[f].active /\ Matches(fr[f].slot, fr[f].a))
+    \A f \in Frames : fr[f].st \in {"idle", "task"} =>
+        \* (a frame that carries no trace may be inactive: it then leaves the thread's traceparent alone)
+        ((fr[f].active \/ fr[f].a.k = "none") /\ Matches(fr[f].slot, fr[f].a))
 
 \* leaving a span, a header scope or a carried frame restores the previous traceparent
 Restored ==
